@@ -1747,9 +1747,9 @@ namespace ipr::impl {
 
       const ipr::Linkage& expr_factory::get_linkage(const ipr::String& lang)
       {
-         if (physically_same(lang, internal_string(u8"C")))
+         if (lang.characters() == u8"C")
             return impl::c_link;
-         else if (physically_same(lang, internal_string(u8"C++")))
+         else if (lang.characters() == u8"C++")
             return impl::cxx_link;
          constexpr auto cmp = [](auto& x, auto& y) { return compare(x.language(), y); };
          return *linkages.insert(get_logogram(lang), cmp);
